@@ -52,7 +52,8 @@ def gen_tree(rng, refs, depth=0):
     if r < 0.83:
         return ("nullif", gen_tree(rng, refs, depth + 1), ("num", rng.choice([0, 1, 5])))
     if r < 0.91:
-        return ("coalesce", gen_tree(rng, refs, depth + 1), ("num", rng.choice([0, 1, -1])))
+        # the fallback of a COALESCE is a literal or another (nullable) metric: COALESCE(a, b) is NULL where both are
+        return ("coalesce", gen_tree(rng, refs, depth + 1), ("num", rng.choice([0, 1, -1])) if rng.random() < 0.55 else ("ref", rng.choice(refs)))
     return ("case", rng.choice([">", "<=", "=", "<>"]), gen_tree(rng, refs, depth + 1), ("num", rng.choice([0, 2, 5])), gen_tree(rng, refs, depth + 1), gen_tree(rng, refs, depth + 1))
 
 
@@ -116,7 +117,10 @@ def gen_case(rng):
         if rng.random() < 0.35:
             comps.append(dict(name=nm, kind="ratio", num=rng.choice(avail), den=rng.choice(avail), qual=qual, fill=rng.choice([None, None, 0, -1])))
         else:
-            comps.append(dict(name=nm, kind="derived", tree=gen_tree(rng, avail), qual=qual, fill=rng.choice([None, None, None, 0])))
+            tree = gen_tree(rng, avail)
+            if rng.random() < 0.12:
+                tree = ("coalesce", ("ref", rng.choice(avail)), ("ref", rng.choice(avail)))          # a formula that IS a COALESCE of two nullable metrics
+            comps.append(dict(name=nm, kind="derived", tree=tree, qual=qual, fill=rng.choice([None, None, None, 0, 0, -1])))
         avail.append(nm)
     rows = [[i + 1, rng.choice([None, 0, 1, 2, 5, -3]), rng.choice([None, 0, 1, 2, 4]), rng.choice(["a", "b", None]), rng.choice([1, 2, 3])] for i in range(rng.choice([0, 3, 6, 10]))]
     joined = rng.random() < 0.3
